@@ -109,8 +109,55 @@ def run(sid, props):
     json.dump(meta, open(os.path.join(d, "meta.json"), "w"), indent=1)
 
 
+def matrix(sids):
+    """Run every seeded change against its property's quick check without touching /repo's working tree:
+    the change is applied in a scratch worktree of /repo's HEAD (VERIF_REPO), the checks run from a snapshot
+    of /verif taken now (so that work in /verif can go on meanwhile)."""
+    snap = "/var/tmp/verif-snap-%d" % os.getpid()
+    shutil.copytree(VERIF, snap, ignore=shutil.ignore_patterns(".git", "out", "evidence"))
+    log = open("/var/tmp/matrix.log", "a")
+    try:
+        for sid in sids:
+            d = os.path.join(VERIF, "seeded", sid)
+            meta = json.load(open(os.path.join(d, "meta.json")))
+            prop = meta["property"]
+            wt = "/var/tmp/mutwt-%d" % os.getpid()
+            sh(["git", "worktree", "remove", "--force", wt], cwd=REPO)
+            rc, o = sh(["git", "worktree", "add", "-q", "--detach", wt, "HEAD"], cwd=REPO)
+            if rc != 0:
+                print(sid, "worktree failed", o, file=log, flush=True); continue
+            try:
+                rc, o = sh(["git", "apply", os.path.join(d, "patch.diff")], cwd=wt)
+                if rc != 0:
+                    rc, o = sh(["git", "apply", "-3", os.path.join(d, "patch.diff")], cwd=wt)
+                if rc != 0:
+                    print(sid, prop, "PATCH DOES NOT APPLY", o[:200], file=log, flush=True); continue
+                rc, o = sh("GOFLAGS=-mod=mod GOTOOLCHAIN=local go1.26 build -tags verif ./...", cwd=wt)
+                if rc != 0:
+                    print(sid, prop, "DOES NOT BUILD", o[:200], file=log, flush=True); continue
+                t0 = time.time()
+                env = dict(os.environ, VERIF_REPO=wt)
+                p = subprocess.run(["python3", os.path.join(snap, "tools", "check.py"), prop, "--tier", "quick", "--no-evidence"],
+                                   cwd=snap, env=env, capture_output=True, text=True, timeout=3600)
+                o = p.stdout + p.stderr
+                first = [l for l in o.splitlines() if l.startswith("VIOLATION") or l.startswith("INCONCLUSIVE")][:1]
+                detail = [l for l in o.splitlines() if l.startswith("  ")][:1]
+                res = {"exit": p.returncode, "wall_s": round(time.time() - t0, 1), "first": [x[:300] for x in (first + detail)],
+                       "head": sh("git rev-parse --short HEAD", cwd=REPO)[1].strip()}
+                print(sid, prop, "exit", p.returncode, (first + detail)[:2], file=log, flush=True)
+                meta.setdefault("checks_run", {})[prop] = res
+                json.dump(meta, open(os.path.join(d, "meta.json"), "w"), indent=1)
+            finally:
+                sh(["git", "worktree", "remove", "--force", wt], cwd=REPO)
+    finally:
+        shutil.rmtree(snap, ignore_errors=True)
+        print("DONE", file=log, flush=True)
+
+
 if __name__ == "__main__":
     if sys.argv[1] == "confirm":
         sys.exit(0 if confirm(sys.argv[2], sys.argv[3], sys.argv[4]) else 1)
+    elif sys.argv[1] == "matrix":
+        matrix(sys.argv[2:] or sorted(os.listdir(os.path.join(VERIF, "seeded"))))
     elif sys.argv[1] == "run":
         run(sys.argv[2], sys.argv[3:])
